@@ -20,7 +20,7 @@
    C20_late_no_strand / C20_late_serial, and their witness schedules stay in the harness as regression
    scenarios under the old signatures. *)
 From Coq Require Import List ZArith Lia Bool Arith.
-From Shm Require Import Gen.Consts Model.StreamState Proofs.StreamStateProofs.
+From Shm Require Import Gen.Consts Model.StreamState Proofs.StreamStateProofs Proofs.StreamStateClose Proofs.StreamStateResidue.
 Import ListNotations.
 Open Scope Z_scope.
 
